@@ -72,7 +72,7 @@ class Contract:
 
 
 _SPEC_CALLS = {"requires", "ensures", "raises", "raises_only", "modifies", "terminates", "loop", "ghost", "local",
-               "mode", "returns", "decreases", "cover", "yields", "note", "case_split", "fuel", "timeout"}
+               "mode", "returns", "decreases", "cover", "yields", "note", "case_split", "fuel", "timeout", "domain"}
 
 
 def _const(node):
@@ -137,6 +137,8 @@ def _parse_body(c, body):
                 c.decreases = call.args[0]
             elif f == "cover":
                 c.covers += call.args
+            elif f == "domain":
+                c.covers.append(call)
             elif f == "note":
                 c.notes.append(_const(call.args[0]))
             elif f == "case_split":
